@@ -1228,16 +1228,93 @@ def _const_str(tree: ast.Module, name: str) -> str:
     _fail(f'string constant {name} not found')
 
 
+def _str_collection(node: ast.AST, tree: ast.Module, fn: ast.FunctionDef, depth: int = 0):
+    """A literal collection of strings ({..}, (..), [..], frozenset(..), set(..)), possibly behind a constant that is
+    assigned exactly once at module level or in the function -> list of the strings, else None."""
+    if isinstance(node, (ast.Set, ast.Tuple, ast.List)):
+        if all(isinstance(e, ast.Constant) and isinstance(e.value, str) for e in node.elts):
+            return [e.value for e in node.elts]
+        return None
+    if isinstance(node, ast.Call) and isinstance(node.func, ast.Name) and node.func.id in ('frozenset', 'set', 'tuple') \
+            and len(node.args) == 1 and not node.keywords:
+        return _str_collection(node.args[0], tree, fn, depth)
+    if isinstance(node, ast.Name) and depth < 3:
+        defs = []
+        for scope in (tree.body, list(ast.walk(fn))):
+            for n in scope:
+                if isinstance(n, ast.Assign) and any(isinstance(t, ast.Name) and t.id == node.id for t in n.targets):
+                    defs.append(n.value)
+                elif isinstance(n, ast.AnnAssign) and isinstance(n.target, ast.Name) and n.target.id == node.id and n.value is not None:
+                    defs.append(n.value)
+                elif isinstance(n, (ast.AugAssign,)) and isinstance(n.target, ast.Name) and n.target.id == node.id:
+                    return None
+        if len(defs) == 1:
+            return _str_collection(defs[0], tree, fn, depth + 1)
+    return None
+
+
+def _name_sel(node: ast.AST, var: str, where) -> str:
+    """Which of the two names of the Keyvalues `var` an expression reads: .name (casefolded) / .real_name (as written)."""
+    src = ast.unparse(node)
+    if src in (f'{var}.name', f'{var}.name.casefold()', f'{var}.real_name.casefold()'):
+        return 'NFolded'
+    if src == f'{var}.real_name':
+        return 'NReal'
+    _fail(f'from_kv1: unrecognised name expression `{src}`', where)
+
+
+def _if_chain(stmts: list[ast.stmt]):
+    """Statements of a loop body as a decision chain [(test, body)], else-body: `if c: ...; continue` followed by the
+    rest is `if c: ... else: rest`; elif chains are followed."""
+    stmts = _strip_doc(stmts)
+    if not stmts:
+        return [], []
+    st = stmts[0]
+    if isinstance(st, ast.If):
+        ends = bool(st.body) and isinstance(st.body[-1], (ast.Continue, ast.Return, ast.Raise, ast.Break))
+        if not st.orelse and ends:
+            rest_chain, rest_else = _if_chain(stmts[1:])
+            return [(st.test, st.body)] + rest_chain, rest_else
+        if len(stmts) == 1:
+            if st.orelse:
+                rest_chain, rest_else = _if_chain(st.orelse)
+                return [(st.test, st.body)] + rest_chain, rest_else
+            return [(st.test, st.body)], []
+    return [], stmts
+
+
 def _kv1(tree: ast.Module) -> dict:
     fk, tk = _func(tree, 'Element', 'from_kv1'), _func(tree, 'Element', 'to_kv1')
     out = {'t_block': _const_str(tree, 'NAME_KV1'), 't_leaf': _const_str(tree, 'NAME_KV1_LEAF'),
            't_root': _const_str(tree, 'NAME_KV1_ROOT'), 'from_digest': ast_digest(fk), 'to_digest': ast_digest(tk)}
-    # reserved names: `child.name in {...}`
-    res = [n for n in ast.walk(fk) if isinstance(n, ast.Compare) and ast.unparse(n.left) == 'child.name'
-           and len(n.ops) == 1 and isinstance(n.ops[0], ast.In) and isinstance(n.comparators[0], ast.Set)]
-    if len(res) != 1 or not all(isinstance(e, ast.Constant) and isinstance(e.value, str) for e in res[0].comparators[0].elts):
-        _fail('from_kv1: reserved-name test `child.name in {...}` not recognised')
-    out['reserved'] = sorted(e.value for e in res[0].comparators[0].elts)
+    # the two tests of the scanning loop: `<name of child> in <literal collection>` (reserved names) and
+    # `<name of child> in <set built with .add(<name of child>)>` (duplicate leaf names)
+    ins = [n for n in ast.walk(fk) if isinstance(n, ast.Compare) and len(n.ops) == 1 and isinstance(n.ops[0], ast.In)
+           and ast.unparse(n.left).startswith('child.')]
+    res, dup = [], []
+    for n in ins:
+        coll = _str_collection(n.comparators[0], tree, fk)
+        if coll is not None:
+            res.append((n, coll))
+        elif isinstance(n.comparators[0], ast.Name):
+            dup.append(n)
+        else:
+            _fail(f'from_kv1: unrecognised membership test `{ast.unparse(n)}`', n)
+    if len(res) != 1 or len(dup) != 1:
+        _fail(f'from_kv1: expected one reserved-name test and one duplicate-name test, found {len(res)} / {len(dup)}')
+    out['reserved'] = sorted(res[0][1])
+    out['reserved_sel'] = _name_sel(res[0][0].left, 'child', res[0][0])
+    out['reserved_line'] = res[0][0].lineno
+    dset = dup[0].comparators[0].id
+    adds = [n for n in ast.walk(fk) if isinstance(n, ast.Call) and ast.unparse(n.func) == f'{dset}.add' and len(n.args) == 1]
+    others = [n for n in ast.walk(fk) if isinstance(n, ast.Call) and isinstance(n.func, ast.Attribute) and ast.unparse(n.func.value) == dset
+              and n.func.attr != 'add']
+    if len(adds) != 1 or others:
+        _fail(f'from_kv1: the set `{dset}` of leaf names is not filled by exactly one .add(...)')
+    sel_in, sel_add = _name_sel(dup[0].left, 'child', dup[0]), _name_sel(adds[0].args[0], 'child', adds[0])
+    if sel_in != sel_add:
+        _fail('from_kv1: the duplicate test and the set of seen names use different names of the leaf', dup[0])
+    out['dup_sel'] = sel_in
     # keys written by from_kv1: elem['value'] = ..., elem['subkeys'] = ...
     written = [n.targets[0].slice.value for n in ast.walk(fk) if isinstance(n, ast.Assign)
                and isinstance(n.targets[0], ast.Subscript) and ast.unparse(n.targets[0].value) == 'elem'
@@ -1245,17 +1322,44 @@ def _kv1(tree: ast.Module) -> dict:
     if sorted(written) != ['subkeys', 'value']:
         _fail(f'from_kv1: literal keys written {written}')
     out['k_value_w'], out['k_subkeys_w'] = 'value', 'subkeys'
-    # keys read by to_kv1: self['value'], attr.name == 'subkeys', attr.name == 'name'
+    # keys read by to_kv1: self['value'], and the decision chain over attr.name in the attribute loop
     rd = [n.slice.value for n in ast.walk(tk) if isinstance(n, ast.Subscript) and ast.unparse(n.value) == 'self'
           and isinstance(n.slice, ast.Constant)]
     if rd != ['value']:
         _fail(f'to_kv1: literal keys read {rd}')
     out['k_value_r'] = rd[0]
-    tests = [n.comparators[0].value for n in ast.walk(tk) if isinstance(n, ast.Compare) and ast.unparse(n.left) == 'attr.name'
-             and len(n.ops) == 1 and isinstance(n.ops[0], ast.Eq) and isinstance(n.comparators[0], ast.Constant)]
-    if tests != ['subkeys', 'name']:
-        _fail(f'to_kv1: attribute name tests {tests}')
-    out['k_subkeys_r'], out['k_name_r'] = tests
+    loops = [n for n in ast.walk(tk) if isinstance(n, ast.For) and isinstance(n.target, ast.Name)
+             and ast.unparse(n.iter) in ('self.values()', 'self._members.values()')]
+    if len(loops) != 1:
+        _fail(f'to_kv1: expected one loop over the attributes, found {len(loops)}')
+    var = loops[0].target.id
+    chain, other = _if_chain(loops[0].body)
+    roles: dict = {}
+    for test, body in chain:
+        if not (isinstance(test, ast.Compare) and len(test.ops) == 1 and isinstance(test.ops[0], ast.Eq)):
+            _fail(f'to_kv1: unrecognised test `{ast.unparse(test)}`', test)
+        l, r = test.left, test.comparators[0]
+        if isinstance(l, ast.Constant):
+            l, r = r, l
+        if not (ast.unparse(l) == f'{var}.name' and isinstance(r, ast.Constant) and isinstance(r.value, str)):
+            _fail(f'to_kv1: unrecognised test `{ast.unparse(test)}`', test)
+        stm = [x for x in body if not (isinstance(x, ast.Expr) and isinstance(x.value, ast.Constant))]
+        if all(isinstance(x, (ast.Continue, ast.Pass)) for x in stm):
+            role = 'name'                       # the attribute is skipped
+        elif any(isinstance(x, ast.Assign) and ast.unparse(x) == f'subkeys = {var}' for x in stm) \
+                and all(isinstance(x, (ast.Continue, ast.If)) or ast.unparse(x) == f'subkeys = {var}' for x in stm) \
+                and all(all(isinstance(y, ast.Raise) for y in x.body) and not x.orelse for x in stm if isinstance(x, ast.If)):
+            role = 'subkeys'                    # validated and remembered
+        else:
+            _fail(f'to_kv1: unrecognised branch for `{ast.unparse(test)}`', test)
+        if role in roles or r.value in roles.values():
+            _fail(f'to_kv1: two branches with the role {role} / the constant {r.value!r}', test)
+        roles[role] = r.value
+    if set(roles) != {'name', 'subkeys'}:
+        _fail(f'to_kv1: attribute name tests found for {sorted(roles)}')
+    if [ast.unparse(x) for x in other] != [f'kv.append(Keyvalues({var}.name, {var}.val_str))']:
+        _fail(f'to_kv1: unrecognised leaf branch {[ast.unparse(x) for x in other]}')
+    out['k_subkeys_r'], out['k_name_r'] = roles['subkeys'], roles['name']
     return out
 
 
@@ -1392,7 +1496,7 @@ def translate() -> tuple[str, dict]:
     umfun = lambda d: ('fun m => match m with UAscii => ' + b(d['ascii']) + ' | UFormat => ' + b(d['format']) + ' | USilent => ' + b(d['silent']) + ' end')
     lines = [
         '(* GENERATED by translate/c14_dmx.py from /repo/src/srctools/dmx.py. Do not edit. *)',
-        'From Coq Require Import NArith ZArith List String.', 'From SV Require Import Num.Dec6 Fmt.DmxCodes Fmt.DmxBin Fmt.DmxMembers Fmt.DmxKv1 Fmt.DmxScalar Fmt.DmxKv2 Fmt.DmxValText Fmt.DmxHeader.', 'Import ListNotations.',
+        'From Coq Require Import NArith ZArith List String.', 'From SV Require Import Num.Dec6 Fmt.DmxCodes Fmt.DmxBin Fmt.DmxMembers Fmt.DmxKv1 Fmt.DmxKv1Sel Fmt.DmxScalar Fmt.DmxKv2 Fmt.DmxValText Fmt.DmxHeader.', 'Import ListNotations.',
         'Open Scope N_scope.',
         'Definition gen_cfg : dmxcfg := {|',
         '  code_table := [' + '; '.join(f'({c}, {i})' for c, i, _ in table) + '];',
@@ -1461,6 +1565,9 @@ def translate() -> tuple[str, dict]:
         f'  cc_write_filter := {mfilter(cnt["write_filter"])}; cc_collect_filter := {mfilter(cnt["collect_filter"])};',
         f'  cc_name_key := {_coq_str(ngt["key"])}; cc_name_default := {_coq_str(ngt["default"])}; cc_len_is_members := {b(ngt["len_is_members"])};',
         '|}.',
+        '(* from_kv1: which name of a leaf (casefolded .name / case-preserved .real_name) the reserved-name test and the duplicate test read *)',
+        f'Definition gen_kv1_reserved_sel : namesel := {kv1["reserved_sel"]}.',
+        f'Definition gen_kv1_dup_sel : namesel := {kv1["dup_sel"]}.',
         '(* KeyValues1 bridge constants *)',
         'Definition gen_kv1 : kv1cfg := {|',
         f'  t_block := {_coq_str(kv1["t_block"])};',
